@@ -334,10 +334,17 @@ def oracle(case):
 
 
 def known_finding(case, got, exp, known):
+    """F5 is exactly this: a single-faced H.explode / P.explode that SHOULD expand (the expected answer is a
+    histogram) gives the histogram back unexpanded; any other difference on such a case is reported"""
     for k in known:
         m = k.get("match", {})
-        if case["api"] in m.get("api", []) and m.get("single_faced") and len({o for o, _ in _flat(case)}) == 1:
-            return k
+        if not (case["api"] in m.get("api", []) and m.get("single_faced") and len({o for o, _ in _flat(case)}) == 1):
+            continue
+        if _both(case) or not (exp or "").startswith("ok") or not got.startswith("ok"):
+            continue
+        face = next(iter({o for o, _ in _flat(case)}))
+        if got.split()[1:2] and got.split()[1].startswith("%d:" % face) and len(got.split()) == 3:
+            return k  # "ok <face>:<count> total=<count>": the die came back as it was
     return None
 
 
